@@ -327,6 +327,17 @@ def check_scalar(lib, method, crit, start, seed):
             break
         ind = problem.individuals[k]
         true = fq(xs)[0]
+        # derivative-based NLopt methods receive no gradient from artap and may query NaN points: NaN matches NaN here
+        same = lambda a, b: (a == b) or (a != a and b != b)
+        if any(v != v for v in xs):
+            col_nan = [float(v) for v in ind.vector]
+            if len(col_nan) != len(xs) or not all(same(a, b) for a, b in zip(col_nan, xs)):
+                out.append(("C05:scalar:%s:recorded-vector" % lib, "query %d at %r recorded as %r; %s" % (k, xs, ind.vector, desc)))
+                break
+            if not ind.costs or not same(float(ind.costs[0]), float(true)) or not same(float(r), float(s * true)):
+                out.append(("C05:scalar:%s:recorded-cost" % lib, "query %d at %r: recorded cost %r, returned %r, true %r; %s" % (k, xs, ind.costs, r, true, desc)))
+                break
+            continue
         if [float(v) for v in ind.vector] != xs:
             out.append(("C05:scalar:%s:recorded-vector" % lib, "query %d at %r recorded as %r; %s" % (k, xs, ind.vector, desc)))
             break
